@@ -66,11 +66,11 @@ def gen_struct(rng):
                 elems.append(('lit', ''.join(lit_char(rng) for _ in range(rng.choice([1, 1, 2, 3])))))
                 continue
             r = rng.random()
-            if r < 0.03 and used:
+            if r < 0.008 and used:
                 name = rng.choice(used)                      # duplicate group name -> re.error
-            elif r < 0.05:
+            elif r < 0.014:
                 name = rng.choice(['a b', 'n-1', 'n.x', 'a{b}c'])  # bad group name -> re.error
-            elif r < 0.06:
+            elif r < 0.017:
                 name = rng.choice(['n\u00e9', 'a>b'])          # outside the model
                 meta['unsupported'] = 1
             else:
@@ -78,7 +78,7 @@ def gen_struct(rng):
             used.append(name)
             if old:
                 elems.append(('old', name))
-            elif rng.random() < 0.04:
+            elif rng.random() < 0.012:
                 elems.append(('hole', name, (rng.choice(UNSUPPORTED), ['a', 'b', '1'], 1, 2)))
                 meta['unsupported'] = 1
             else:
@@ -238,7 +238,7 @@ def gen_case(rng):
     if r < 0.82:
         elems, star = rng.choice(structs)
         s, _ = instantiate(rng, elems, star)
-        ne = rng.choice([0, 0, 0, 0, 1, 1, 1, 1, 2, 2])
+        ne = rng.choice([0, 0, 0, 0, 0, 1, 1, 1, 1, 2])
         for _ in range(ne):
             s = edit(rng, s)
         meta.update(kind='inst', edits=ne)
